@@ -441,13 +441,28 @@ impl Next for Prec {
             pfields_shape(fields@), //# C07 blob.loop.fields_shaped
 //@   endloop
 //@ end
-//@ fn sylt-parser/src/statement.rs block
+//@ fn sylt-parser/src/statement.rs statement
 //@   mode assumed
 //@   ret r
 //@   spec
-        ensures r is Ok ==> pall_shape(r->Ok_0.1@),
-            r is Err ==> r->Err_0.1.len() >= 1, // assumed: block() fails only with the errors it collected (errs non-empty)
+        // assumed (the 450-line statement parser: slice patterns over const-generic lookahead arrays, nested
+        // fn items and higher-order list macros are outside Verus): the statements it returns have the
+        // shape the resolver relies on, and a failure carries at least one error
+        ensures r is Ok ==> ps_shape(r->Ok_0.1),
+            r is Err ==> r->Err_0.1.len() >= 1,
 //@   endspec
+//@ end
+//@ fn sylt-parser/src/statement.rs block
+//@   props C07
+//@   attr #[verifier::exec_allows_no_decreases_clause]
+//@   ret r
+//@   spec
+        ensures r is Ok ==> pall_shape(r->Ok_0.1@), //# C07 block.result_shape
+            r is Err ==> r->Err_0.1.len() >= 1, //# C07 block.an_error_result_is_never_an_empty_list
+//@   endspec
+//@   loop 1
+        invariant pall_shape(statements@), //# C07 block.loop1.statements_so_far_have_shape
+//@   endloop
 //@ end
 //@ fn sylt-parser/src/parser.rs parse_type
 //@   mode assumed
